@@ -149,7 +149,41 @@ def _history(item):
             events.append({"variant": kind, "world": "int" if integral else "float", "mutated": mutated,
                            "resclass": "%s-%d" % ("int" if integral else "float", cls),
                            "outcome": out, "shown": json.dumps(res["value"])[:160] if out == "returned" else res["value"]})
-    return {"id": "%s#%d" % (name, wk), "fn": name, "events": events, "seed": seed, "wk": wk}
+    # the caller updates its arrays IN PLACE and calls again: the result must be the one for the new contents (a cache keyed by
+    # the identity of an argument, `is` / id(), would answer for the old ones)
+    reuse = None
+    try:
+        W1 = recipes.World(random.Random(seed), False)
+        W2 = recipes.World(random.Random(seed + 1), False)
+        a1, kw1 = mk(W1)
+        a2, kw2 = mk(W2)
+
+        def mirrored(a):      # the same curve mirrored vertically (a convex decay becomes concave: other hull, other knees)
+            if isinstance(a, np.ndarray) and a.ndim == 2 and a.shape[1] == 2 and a.dtype.kind == "f":
+                b = a.copy()
+                b[:, 1] = a[:, 1].max() - a[:, 1] + a[:, 1].min()
+                return b
+            return a
+        for a_new, kw_new in ((a2, kw2), ([mirrored(a) for a in a1], kw1)):
+            objs = [_variant(a, "C") for a in a1]
+            monitor.call(fn, tuple(objs), dict(kw1), budget=400000, wall=40)
+            same_shape = all((not isinstance(o, np.ndarray)) or (isinstance(b, np.ndarray) and o.shape == b.shape and o.dtype == b.dtype)
+                             for o, b in zip(objs, a_new))
+            if not (same_shape and any(isinstance(o, np.ndarray) for o in objs)):
+                continue
+            for o, b in zip(objs, a_new):
+                if isinstance(o, np.ndarray):
+                    o[...] = b
+            args_reuse = [o if isinstance(o, np.ndarray) else b for o, b in zip(objs, a_new)]
+            o1, v1, _ = monitor.call(fn, tuple(args_reuse), dict(kw_new), budget=400000, wall=40)
+            o2, v2, _ = monitor.call(fn, tuple(_variant(a, "C") for a in a_new), dict(kw_new), budget=400000, wall=40)
+            if o1 != o2 or (o1 == "returned" and not _same(_norm(v1), _norm(v2))):
+                reuse = {"reused_objects": json.dumps(_norm(v1))[:160] if o1 == "returned" else o1,
+                         "fresh_objects": json.dumps(_norm(v2))[:160] if o2 == "returned" else o2}
+                break
+    except Exception:
+        reuse = None
+    return {"id": "%s#%d" % (name, wk), "fn": name, "events": events, "seed": seed, "wk": wk, "reuse": reuse}
 
 
 def _public_inventory():
@@ -281,6 +315,10 @@ def run(ctx):
                 else:
                     if h["wk"] == 0:
                         ctx.note("recipe %s does not run on the %s world: %s %s" % (name, e["world"], e["outcome"], e["shown"]))
+    for h in hist:
+        if h.get("reuse"):
+            ctx.violation("stale-after-in-place-update(%s)" % h["fn"].split("[")[0], {"kind": "dyn", "fn": h["fn"], "seed": h["seed"], "wk": h["wk"]},
+                          h["reuse"], match="stale-after-in-place-update:%s" % h["fn"].split("[")[0])
     for cid, vs in rej.items():
         h = byname[cid.rsplit("@", 1)[0]]
         name = h["fn"]
@@ -307,6 +345,8 @@ def replay(ctx, obj):
             ctx.violation("unlinked-at-runtime", c, {"outcome": out, "error": str(val)[:200]})
         return
     h = _history((c["fn"], c.get("seed", 0), c.get("wk", 0)))
+    if h.get("reuse"):
+        ctx.violation("stale-after-in-place-update(%s)" % c["fn"].split("[")[0], c, h["reuse"])
     rej = ctx.trace("Purity", _split_cases(h))
     for cid, vs in rej.items():
         ctx.violation("%s(%s)" % (vs[0][0], c["fn"].split("[")[0]), c, {"verdict": vs[0], "events": h["events"]})
